@@ -361,7 +361,7 @@ inline size_t gSizedObj(const galois::PODResizeableArray<T>& data) {
  * @returns size needed to store a deque into a serialize buffer
  */
 template <typename T, typename Alloc>
-inline size_t gSerializeObj(const std::deque<T, Alloc>& data) {
+inline size_t gSizedObj(const std::deque<T, Alloc>& data) {
   return gSizedSeq(data);
 }
 
